@@ -95,7 +95,7 @@ inline void register_part2() {
   reg("NormalGravity::U", {CART, CART, CART}, "rrrr", false, [](A a, O o) { o.r[0] = W().ng[g_e].U(a[0], a[1], a[2], o.r[1], o.r[2], o.r[3]); });
   reg("NormalGravity::V0", {CART, CART, CART}, "rrrr", false, [](A a, O o) { o.r[0] = W().ng[g_e].V0(a[0], a[1], a[2], o.r[1], o.r[2], o.r[3]); });
   reg("NormalGravity::Phi", {CART, CART}, "rrr", false, [](A a, O o) { o.r[0] = W().ng[g_e].Phi(a[0], a[1], o.r[1], o.r[2]); });
-  reg("NormalGravity::inspectors", {DEG}, "rrrrrrrrr", false, [](A a, O o) { const NormalGravity& n = W().ng[g_e]; o.r[0] = n.DynamicalFormFactor(I(a[0])); o.r[1] = n.EquatorialGravity(); o.r[2] = n.PolarGravity(); o.r[3] = n.GravityFlattening();
+  reg("NormalGravity::inspectors", {DEG}, "rrrrrrrrr", false, [](A a, O o) { const NormalGravity& n = W().ng[g_e]; o.r[0] = n.DynamicalFormFactor(std::min(I(a[0]), 1000000));   // O(n) loop: n is capped, 2^31 trips are slow, not a hang o.r[1] = n.EquatorialGravity(); o.r[2] = n.PolarGravity(); o.r[3] = n.GravityFlattening();
     o.r[4] = n.SurfacePotential(); o.r[5] = n.MassConstant(); o.r[6] = n.AngularVelocity(); o.r[7] = n.Flattening(); o.r[8] = n.EquatorialRadius(); });
   reg("NormalGravity::J2ToFlattening", {CART, POS, UNIT, UNIT}, "r", false, [](A a, O o) { o.r[0] = NormalGravity::J2ToFlattening(a[0], 3.986e14 * a[1], 7.29e-5 * a[2], 1.08e-3 * (1 + a[3])); });
   reg("NormalGravity::FlatteningToJ2", {CART, POS, UNIT, FLAT}, "r", false, [](A a, O o) { o.r[0] = NormalGravity::FlatteningToJ2(a[0], 3.986e14 * a[1], 7.29e-5 * a[2], a[3]); });
@@ -103,9 +103,12 @@ inline void register_part2() {
   reg("Intersect::Closest", {LAT, LON, AZI, LAT, LON, AZI}, "rri", false, [](A a, O o) { Intersect::Point p = W().xs[g_e].Closest(a[0], a[1], a[2], a[3], a[4], a[5], Intersect::Point(0, 0), &o.i[0]); o.r[0] = p.first; o.r[1] = p.second; });
   reg("Intersect::Segment", {LAT, LON, LAT, LON, LAT, LON, LAT, LON}, "rrii", false, [](A a, O o) { Intersect::Point p = W().xs[g_e].Segment(a[0], a[1], a[2], a[3], a[4], a[5], a[6], a[7], o.i[0], &o.i[1]); o.r[0] = p.first; o.r[1] = p.second; });
   reg("Intersect::Next", {LAT, LON, AZI, AZI}, "rri", false, [](A a, O o) { Intersect::Point p = W().xs[g_e].Next(a[0], a[1], a[2], a[3], &o.i[0]); o.r[0] = p.first; o.r[1] = p.second; });
-  reg("Intersect::All", {LAT, LON, AZI, LAT, LON, AZI}, "rri", false, [](A a, O o) { std::vector<int> c; std::vector<Intersect::Point> v = W().xs[g_e].All(a[0], a[1], a[2], a[3], a[4], a[5], 2.5e7, c);
+  reg("Intersect::All", {LAT, LON, AZI, LAT, LON, AZI}, "rri", true, [](A a, O o) { std::vector<int> c; std::vector<Intersect::Point> v = W().xs[g_e].All(a[0], a[1], a[2], a[3], a[4], a[5], 2.5e7, c);
     o.i[0] = (int)v.size(); o.r[0] = v.empty() ? Math::NaN() : v[0].first; o.r[1] = v.empty() ? Math::NaN() : v[0].second; });
-  reg("Intersect::All(maxdist)", {DIST}, "i", false, [](A a, O o) { std::vector<int> c; std::vector<Intersect::Point> v = W().xs[g_e].All(10, 20, 30, 11, 21, 100, std::fabs(a[0]), c); o.i[0] = (int)v.size(); });
+  // documented to throw for an absurd maxdist; the work for a legal maxdist grows as maxdist^2, so the hang probe
+  // is confined to <= 25 circumferences (1e9 m, ~0.15 s): values between that and 1e15 m are mapped to 1e9 m
+  reg("Intersect::All(maxdist)", {DIST}, "i", true, [](A a, O o) { double m = std::fabs(a[0]); if (m > 1e9 && m < 1e15) m = 1e9;
+    std::vector<int> c; std::vector<Intersect::Point> v = W().xs[g_e].All(10, 20, 30, 11, 21, 100, m, c); o.i[0] = (int)v.size(); });
   // ---------------- PolygonArea (history of 3 fixed points + the variable ones)
   reg("PolygonArea::AddPoint+Compute", {LAT, LON}, "rri", false, [](A a, O o) { PolygonArea p(W().g[g_e]); p.AddPoint(10, 10); p.AddPoint(a[0], a[1]); p.AddPoint(-20, 80); o.i[0] = (int)p.Compute(false, true, o.r[0], o.r[1]); });
   reg("PolygonArea::AddEdge+Compute", {AZI, DIST}, "rri", false, [](A a, O o) { PolygonArea p(W().g[g_e]); p.AddPoint(10, 10); p.AddEdge(a[0], a[1]); p.AddPoint(-20, 80); o.i[0] = (int)p.Compute(true, false, o.r[0], o.r[1]); });
